@@ -16,6 +16,7 @@ type exprContext struct {
 	root             store.Cursor
 	result           Result
 	contextPosition  int
+	contextSize      int
 	builtinFunctions map[XmlName]Function
 	ContextSettings
 }
@@ -38,6 +39,7 @@ func (e *exprContext) copy() exprContext {
 		root:             e.root,
 		result:           e.result,
 		contextPosition:  e.contextPosition,
+		contextSize:      e.contextSize,
 		builtinFunctions: builtinFunctions,
 		ContextSettings:  e.ContextSettings,
 	}
